@@ -229,7 +229,9 @@ class AsyncTask(futures.FutureBase):
                 if hasattr(error, "_type_"):
                     return self._generator.throw(error._type_, error, error._traceback)
                 else:
-                    return self._generator.throw(type(error), error)
+                    # (one-argument form: keeps the traceback the error already has, e.g. the
+                    # frames of the batch flush or value provider that raised it)
+                    return self._generator.throw(error)
         except (StopIteration, GeneratorExit):
             # Returning leads to a StopIteration exception, which is
             # handled here. In this case we shouldn't need to extract frame
